@@ -165,6 +165,13 @@ def run(ctx):
     mesh_stage(ctx, 2)
     import c09_maps
     c09_maps.run(ctx)
+    if ctx.tier != "quick":
+        # the index protocol (Add / Remove / first query) for ANY pool, vertex set and history length, by the TLA+
+        # proof system (about the design; never a verdict)
+        ok, nobl, tail = ctx.tlaps("index-proof", "mesh/MeshIndexProof")
+        ctx.stage("index-proof", kind="P", tlaps_proved=ok, obligations=nobl)
+        if not ok:
+            vlib.log("  (the unbounded proof did not go through here; the bounded model checking stands)\n" + tail[-400:])
     # the library's own editors applied to a mesh whose lazy index already exists
     import solids
     solids.judge_stage(ctx, "editors", ["c09-editors"], {"panic", "vertices", "find", "neighbors"},
